@@ -170,7 +170,7 @@ def check(tier):
         pattern = sum(1 for s in sts if s["pattern"])
         accepts = sum(1 for s in sts if s["accept"])
         multi = sum(1 for s in sts if s["cands"] > 1)
-        if len(sts) != len(cases) or pattern < len(cases) // 10 or accepts < len(cases) // 50:
+        if len(sts) != len(cases) or pattern < len(cases) // 10 or accepts < 20:
             raise lib.Inconclusive("vacuous: %d judged of %d, %d through a host pattern, %d expected accepts" % (len(sts), len(cases), pattern, accepts))
         rc = v.finish()
         lib.write_evidence("C40", tier, "model_checking", {
